@@ -134,14 +134,246 @@ class Translation:
     def pos(self, geo, s, i, c, per_frame=True):
         return sv.add(geo.pos(s, i, c), sv.SV(TVEC(sv.znum(s if per_frame else 0), sv.znum(c))))
 
+    cancellation = "rows-handed-to-remove_pbc-are-the-rows-of-the-untranslated-run"
+
     def begin(self, ctx, unit, inp):
+        # units whose loops carry WRITTEN invariants over the base unit's spec (Hessian assembly) need the run on g.x to produce
+        # the terms of the run on x syntactically: the translation is cancelled at the call of remove_pbc (checked ring identity)
+        if getattr(unit, "normalise_rows", False):
+            return install_row_wrapper(ctx, unit, inp, "TVEC", self.cancellation)
         return None
 
     def end(self, ctx, unit, inp, token):
-        pass
+        remove_row_wrapper(ctx, token)
 
 
 TRANSLATION = Translation()
+
+
+# ---- lattice shifts of single particles ---------------------------------------------------------------------------
+
+KSH = z3.Function("KSH", I_, I_, I_, I_)             # KSH(frame, particle, axis): integer number of cell vectors added along the axis
+SHIFTV = z3.Function("SHIFTV", I_, I_, I_, R_)       # SHIFTV(frame, particle, c) := sum_k KSH(frame, particle, k) ppp_k H(frame)[k, c]
+
+
+class _Out:
+    """the outcome of the first run seen from the forked state of the second run (trace and heap contain both runs)"""
+
+    def __init__(self, out, state):
+        self.kind, self.value, self.frame, self.exc, self.msg = out.kind, out.value, out.frame, out.exc, out.msg
+        self.state = state
+
+
+class _Goal:
+    """side obligation with explicit assumptions and solver options (SideOb-compatible, see pyvc.loops._SideGoal)"""
+
+    def __init__(self, kind, cond, where, opts, clause=None):
+        self.kind, self.cond, self.pc, self.where = kind, cond, [], where
+        self.explicit = True
+        self.opts = opts
+        if clause:
+            self.clause = clause
+
+
+def _contains(e, name, memo):
+    i = e.get_id()
+    r = memo.get(i)
+    if r is None:
+        r = (z3.is_app(e) and e.decl().kind() == z3.Z3_OP_UNINTERPRETED and e.decl().name() == name) or any(_contains(c, name, memo) for c in e.children())
+        memo[i] = r
+    return r
+
+
+def affine_in(e, name="SHIFTV"):
+    """e = base + sum_a coef_a * a over the applications a of the symbol `name`, with INTEGER-sorted coefficient terms:
+    -> (base, {id: (a, coef)}); sums, differences, integer multiples and conditionals are decomposed, anything else that contains
+    an application of the symbol is refused (EngineError)"""
+    memo = {}
+    zero_r = z3.RealVal(0)
+
+    def comb(c1, c2, f):
+        out = {}
+        for k in set(c1) | set(c2):
+            a = (c1.get(k) or c2.get(k))[0]
+            x = c1[k][1] if k in c1 else z3.IntVal(0)
+            y = c2[k][1] if k in c2 else z3.IntVal(0)
+            out[k] = (a, f(x, y))
+        return out
+
+    def go(t):
+        """-> (base or None when the base is zero, coefficients); the base keeps the structure of t (no `+ 0` left behind), so
+        that the row of the run on x is reproduced term for term"""
+        if not _contains(t, name, memo):
+            return t, {}
+        k = t.decl().kind()
+        ch = t.children()
+        if k == z3.Z3_OP_UNINTERPRETED and t.decl().name() == name:
+            return None, {t.get_id(): (t, z3.IntVal(1))}
+        if k == z3.Z3_OP_ADD:
+            b, c = None, {}
+            for x in ch:
+                b2, c2 = go(x)
+                b = b2 if b is None else (b if b2 is None else b + b2)
+                c = comb(c, c2, lambda u, v: u + v)
+            return b, c
+        if k == z3.Z3_OP_SUB:
+            b, c = go(ch[0])
+            for x in ch[1:]:
+                b2, c2 = go(x)
+                if b2 is not None:
+                    b = -b2 if b is None else b - b2
+                c = comb(c, c2, lambda u, v: u - v)
+            return b, c
+        if k == z3.Z3_OP_UMINUS:
+            b, c = go(ch[0])
+            return (None if b is None else -b), {i: (a, -x) for i, (a, x) in c.items()}
+        if k == z3.Z3_OP_MUL and len(ch) == 2:
+            for num, other in ((ch[0], ch[1]), (ch[1], ch[0])):
+                ns = z3.simplify(num)
+                if z3.is_rational_value(ns) and ns.denominator_as_long() == 1 and not _contains(num, name, memo):
+                    b, c = go(other)
+                    n = ns.numerator_as_long()
+                    return (None if b is None else num * b), {i: (a, z3.IntVal(n) * x) for i, (a, x) in c.items()}
+        if k == z3.Z3_OP_ITE:
+            if _contains(ch[0], name, memo):
+                raise sv.EngineError("transformation symbol inside a condition")
+            b1, c1 = go(ch[1])
+            b2, c2 = go(ch[2])
+            b = None if (b1 is None and b2 is None) else z3.If(ch[0], zero_r if b1 is None else b1, zero_r if b2 is None else b2)
+            return b, comb(c1, c2, lambda u, v: z3.If(ch[0], u, v))
+        raise sv.EngineError(f"remove_pbc argument is not affine in the transformation symbol {name} ({t.decl().name()})")
+    base, coefs = go(e)
+    return (zero_r if base is None else base), coefs
+
+
+def _ite_guards(e):
+    out, seen = {}, set()
+    stack = [e]
+    while stack:
+        t = stack.pop()
+        if t.get_id() in seen:
+            continue
+        seen.add(t.get_id())
+        if z3.is_app(t) and t.decl().kind() == z3.Z3_OP_UNINTERPRETED:
+            continue        # conditionals inside the arguments of an application stay inside the atom
+        if z3.is_app(t) and t.decl().kind() == z3.Z3_OP_ITE:
+            out[t.arg(0).get_id()] = t.arg(0)
+        stack.extend(t.children())
+    return list(out.values())
+
+
+def install_row_wrapper(ctx, unit, inp, symbol, clause, lattice=None):
+    """wrap the callee contract of remove_pbc that the base unit uses, for the run on g.x: every row r' handed to remove_pbc is
+    decomposed as r' = r + sum_a coef_a a over the applications a of `symbol` (the translation vector / the lattice shift) with
+    integer coefficient terms (affine_in), r = the row of the run on x.  An obligation (clause `clause`, ring normal form per
+    conditional branch) shows r' = r (translation: the vectors cancel in every difference) or r' = r + sum_k t_k ppp_k H[k, :] with
+    integer terms t_k (lattice shift; `symbol` unfolded to its definition on the cell and mask the CALL received); the base unit's
+    contract is then applied to r — for the lattice shift this is clause (c) of the callee contract (C02)."""
+    from pyvc.lib import _arr
+    interp = ctx.interp
+    orig = interp.summaries.get(PBC_KEY)
+    if orig is None:
+        return ("none", None)
+    geo = unit.geo(inp)
+
+    def wrapped(interp_, args, kwargs):
+        names = ["RIJ", "hmatrix", "ppp"]
+        vals = dict(zip(names, args))
+        vals.update(kwargs)
+        R, Hh, P = _arr(vals["RIJ"], interp_), _arr(vals["hmatrix"], interp_), vals.get("ppp")
+        if R.ndim != 2:
+            raise sv.EngineError("row wrapper: remove_pbc(RIJ (n, d), hmatrix, ppp) expected")
+        d = A.conc_dim(Hh.shape[0], "cell dimension")
+        rd = R.reader()
+        q = sv.fresh_int("row")
+        rows = [sv.zr(sv.norm(rd((q, c)))) for c in range(d)]
+        dec = [affine_in(e, symbol) for e in rows]
+        apps = {}
+        for _, cf in dec:
+            for i, (a, _x) in cf.items():
+                apps[i] = a
+        if not apps:
+            return orig(interp_, args, kwargs)
+        lat = [0] * d
+        rw = []
+        if lattice is not None:
+            if P is None:
+                raise sv.EngineError("row wrapper: remove_pbc called without ppp")
+            P = _arr(P, interp_)
+            Hm = [[Hh.get((a, b)) for b in range(d)] for a in range(d)]
+            pm = [P.get((k,)) for k in range(d)]
+            # t_k: the integer combination of the shifts along axis k, read off component 0 (the obligation shows that the same
+            # integers serve every component)
+            tk = []
+            for k in range(d):
+                acc = z3.IntVal(0)
+                for i, (a, coef) in dec[0][1].items():
+                    acc = acc + coef * KSH(a.arg(0), a.arg(1), z3.IntVal(k))
+                tk.append(acc)
+            for c in range(d):
+                for k in range(d):
+                    lat[c] = sv.add(lat[c], sv.mul(sv.mul(sv.to_real(sv.SV(tk[k])), pm[k]), Hm[k][c]))
+            rw = [(a, lattice.definition(geo, a)) for a in apps.values()]
+        goals = []
+        for c in range(d):
+            ident = rows[c] == dec[c][0] + (z3.RealVal(0) if sv.is_conc(lat[c]) else sv.zr(lat[c]))
+            guards = _ite_guards(ident)
+            if len(guards) > 4:
+                raise sv.EngineError("row wrapper: too many conditionals in a remove_pbc argument")
+            for bits in range(1 << len(guards)):
+                sub = [(gd, z3.BoolVal(bool(bits >> n & 1))) for n, gd in enumerate(guards)]
+                goals.append(z3.simplify(z3.substitute(ident, *sub)) if sub else ident)
+        cur().side.append(_Goal("call:remove_pbc:" + clause, z3.And(*goals) if len(goals) > 1 else goals[0], cur().where,
+                                {"rewrites": rw, "ring_only": True}, clause=clause))
+
+        def strip(idx):
+            return sv.SV(affine_in(sv.zr(sv.norm(rd(idx))), symbol)[0])
+        R0 = A.new_arr(R.shape, A._memo(strip), "float")
+        return orig(interp_, [R0] + list(args[1:]), {k_: v for k_, v in kwargs.items() if k_ != "RIJ"})
+    interp.summaries[PBC_KEY] = wrapped
+    return ("wrapped", orig)
+
+
+def remove_row_wrapper(ctx, token):
+    if token and token[0] == "wrapped":
+        ctx.interp.summaries[PBC_KEY] = token[1]
+
+
+class LatticeShift:
+    """x_i -> x_i + sum_k KSH(s, i, k) ppp_k H_s[k, :]: every particle, in every frame, moved by its own integer combination of the cell
+    vectors of the periodic axes (per_frame False: the same combination in every frame and the cell of frame 0 — a shifted trajectory).
+
+    The run on g.x uses, at every call of remove_pbc, clause (c) of the callee's contract (C02 `c:shift-invariance-away-from-ties`, proved for
+    the real body for every mask and cell kind and re-verified with this check):
+        remove_pbc(r + sum_k t_k ppp_k H[k, :], H, ppp) = remove_pbc(r, H, ppp)   for integers t_k, r away from half-cell ties.
+    The wrapper below decomposes every row handed to remove_pbc as r + (lattice vector) — r = the row with the shifts removed, t_k an
+    integer-sorted term — emits the decomposition as an obligation (`rows-handed-to-remove_pbc-differ-by-lattice-vectors`: a ring identity
+    per conditional branch, with SHIFTV unfolded to its definition on the cell and mask THE CALL RECEIVED), and hands r to the callee
+    contract the base unit uses.  Hypothesis of the clause (stated in the clause name): no row of the run on x is at a half-cell tie."""
+    key = "lattice-shift"
+    what = "unchanged-under-lattice-shifts(away-from-half-cell-ties)"
+    decomposition = "rows-handed-to-remove_pbc-differ-by-lattice-vectors-of-the-periodic-axes"
+
+    def pos(self, geo, s, i, c, per_frame=True):
+        s0 = s if per_frame else 0
+        return sv.add(geo.pos(s, i, c), sv.SV(SHIFTV(sv.znum(s0), sv.znum(i), sv.znum(c))))
+
+    def definition(self, geo, app):
+        """SHIFTV(s, i, c) unfolded on the unit's geometry (cell of frame s, mask)"""
+        s, i, c = [(z3.simplify(x).as_long() if z3.is_int_value(z3.simplify(x)) else sv.SV(x)) for x in app.children()]
+        acc = 0
+        for k in range(geo.d):
+            acc = sv.add(acc, sv.mul(sv.mul(sv.to_real(sv.SV(KSH(sv.znum(s), sv.znum(i), z3.IntVal(k)))), geo.p[k]), geo.H(s, k, c)))
+        return acc
+
+    def begin(self, ctx, unit, inp):
+        return install_row_wrapper(ctx, unit, inp, "SHIFTV", self.decomposition, lattice=self)
+
+    def end(self, ctx, unit, inp, token):
+        remove_row_wrapper(ctx, token)
+
+
+LATTICE = LatticeShift()
 
 
 # ---------------------------------------------------------------------------------------------------------------
@@ -197,13 +429,31 @@ class Rel(Unit):
         geo = self.geo(inp)
         return lambda s, i, c: self.g.pos(geo, s, i, c, self.per_frame)
 
+    light_state = False      # run on g.x from a fork of the final state that keeps only the branch decisions of the path condition
+
     def ensures(self, ctx, case, inp, out):
-        token = self.g.begin(ctx, self, inp)
-        try:
-            res2 = self.second(ctx, inp)
-        finally:
-            self.g.end(ctx, self, inp, token)
-        yield from self.compare(ctx, case, inp, out, res2)
+        from pyvc.state import use_state
+        if not self.light_state:
+            token = self.g.begin(ctx, self, inp)
+            try:
+                res2 = self.second(ctx, inp)
+            finally:
+                self.g.end(ctx, self, inp, token)
+            yield from self.compare(ctx, case, inp, out, res2)
+            return
+        # the facts the first run left in the path condition (loop summaries, relational library contracts such as the eigen-equations)
+        # are not needed by the second run; its obligations are generated under the branch decisions only (a subset of the path
+        # condition, hence sound) — this keeps the nonlinear facts of the first run out of the second run's loop obligations
+        s2 = out.state.fork()
+        s2.pc = [(t if val else z3.Not(t)) for val, t in s2.decisions.values()]
+        with use_state(s2):
+            token = self.g.begin(ctx, self, inp)
+            try:
+                res2 = self.second(ctx, inp)
+            finally:
+                self.g.end(ctx, self, inp, token)
+            goals = list(self.compare(ctx, case, inp, _Out(out, s2), res2))
+        yield from goals
 
     def fail(self):
         for c in self.clauses:
@@ -498,9 +748,13 @@ class DivCurl(Rel):
 
 
 class Hessian(Rel):
-    """the mass-weighted Hessian handed to the eigen-solver (entry (a, b)), hence its spectrum; the written omega / PR columns"""
+    """the mass-weighted Hessian handed to the eigen-solver, entry (a, b) — hence its spectrum (the eigenvalues are a function of the
+    matrix).  The assembly loops of the run on g.x are verified against the SAME written invariants as the run on x (the base
+    unit's, phrased over the untransformed system): their init / step obligations are part of this unit's clauses `assembly:*`."""
     per_frame = False
-    clauses = ("matrix-handed-to-eigh", "omega", "PR")
+    normalise_rows = True
+    light_state = True
+    clauses = ("matrix-handed-to-eigh",)
 
     def geo(self, inp):
         S = inp["S"]
@@ -522,24 +776,15 @@ class Hessian(Rel):
 
     def compare(self, ctx, case, inp, out, res2):
         S, d = inp["S"], inp["d"]
-        tr = out.state.trace
-        eg = [e for e in tr if e[0] == "np.linalg.eigh"]
-        cs = [e for e in tr if e[0] == "to_csv"]
-        if len(eg) != 2 or len(cs) != 2:
+        eg = [e for e in out.state.trace if e[0] == "np.linalg.eigh"]
+        if len(eg) != 2 or not all(isinstance(e[1], A.Arr) and e[1].ndim == 2 for e in eg):
             yield from self.fail()
             return
-        a, b, k = ctx.int("a"), ctx.int("b"), ctx.int("k")
+        a, b = ctx.int("a"), ctx.int("b")
         n = sv.mul(d, S.N)
         M1, M2 = eg[0][1], eg[1][1]
-        ok = all(isinstance(M, A.Arr) and M.ndim == 2 for M in (M1, M2))
-        yield (eq_goal(self.cl("matrix-handed-to-eigh"), in_range((0, a, n), (0, b, n)), [(M1.get((a, b)), M2.get((a, b)))]) if ok
-               else (self.cl("matrix-handed-to-eigh"), False))
-        s1, s2 = cs[0][2], cs[1][2]
-        for col, nm in (("omega", "omega"), ("PR", "PR")):
-            if col in s1 and col in s2:
-                yield eq_goal(self.cl(nm), in_range((0, k, n)), [(s1[col].get((k,)), s2[col].get((k,)))])
-            else:
-                yield self.cl(nm), False
+        yield self.cl("matrix-handed-to-eigh"), sv.and_(sv.cmp("==", M1.shape[0], M2.shape[0]), sv.cmp("==", M1.shape[1], M2.shape[1]),
+                                                        sv.implies(in_range((0, a, n), (0, b, n)), sv.cmp("==", M1.get((a, b)), M2.get((a, b)))))
 
     def replay(self, case, clause, model, seed):
         return replay_rel("HessianMatrix.diagonalize_hessian", self.g.key, seed, case)
